@@ -754,7 +754,9 @@ def run_detachrelease(prog, ctx=None):
     to the object.  Where it answers with another object (a return value that is neither null nor the argument / a member of
     it), the caller's reference to the old one is consumed: every path to such a return runs a release of the argument
     (mpt_refcount_lower on its counter, free() of it, or an unref call that is handed it).  Without it the old buffer's count
-    stays one too high for ever: its remaining holders see it shared, copy on every write, and it is never destroyed."""
+    stays one too high for ever: its remaining holders see it shared, copy on every write, and it is never destroyed.
+    DETACHRAW: a memcpy out of the argument's payload is dominated by the zero edge of the mpt_refcount_lower() test on it, or by
+    the no-element-type edge of a test of its `_content_traits`."""
     res = Result("DETACHRELEASE")
     seen = set()
     for g, u, rn, slot, fn, qn in vtables(prog):
@@ -820,6 +822,37 @@ def run_detachrelease(prog, ctx=None):
             res.ob("%s:%s" % (f.qn, norm(show(e, f))), not bad, f, e.get("l") or f.line,
                    "" if not bad else "`%s` answers the detach with another object on a path that never released the caller's reference to the "
                    "argument (no mpt_refcount_lower / free / unref of it): the old object's count stays one too high" % norm(show(e, f)))
+        # DETACHRAW: a raw copy out of the old buffer duplicates the references its elements hold; it is made only where the
+        # count of the old buffer reached zero (the content moves), not while other holders remain
+        zero_starts = []
+        for bid, blk in f.blocks.items():
+            if not (blk.term and isinstance(blk.term.get("cond"), dict) and len(blk.succ) == 2):
+                continue
+            c = strip(blk.term["cond"], all_casts=True)
+            neg = False
+            while c.get("k") == "un" and c.get("op") == "!":
+                neg = not neg
+                c = strip(c["e"], all_casts=True)
+            if c.get("k") == "call" and callee_name(c) == "mpt_refcount_lower" and c.get("args") and rooted(c["args"][0]):
+                z = blk.succ[0] if neg else blk.succ[1]
+                if z is not None:
+                    zero_starts.append(z)
+        dom = f.dominators()
+        for b, i, e in f.elements():
+            for n in walk_own(e):
+                if n.get("k") == "call" and callee_name(n) in ("memcpy", "memmove") and len(n.get("args", [])) == 3 and rooted(n["args"][1]):
+                    ok = any(z in dom[b.id] for z in zero_starts)
+                    if not ok:
+                        # raw buffers have no elements: behind a refusal of typed content (`if (b->buf._content_traits) return 0`)
+                        for pb in dom[b.id]:
+                            pblk = f.blocks[pb]
+                            if pblk.term and isinstance(pblk.term.get("cond"), dict) and len(pblk.succ) == 2 and pb != b.id:
+                                c2 = strip(pblk.term["cond"], all_casts=True)
+                                if c2.get("k") == "mem" and c2.get("f") == "_content_traits" and pblk.succ[1] is not None \
+                                        and (pblk.succ[1] == b.id or pblk.succ[1] in dom[b.id]):
+                                    ok = True
+                    res.ob("%s:%s only when unshared" % (f.qn, norm(show(n, f))[:50]), ok, f, n.get("l") or f.line,
+                           "" if ok else "`%s` copies the elements of the old buffer byte by byte on a path where its count did not reach zero: the references they hold are duplicated without being taken (the copy operation of the element type is bypassed)" % norm(show(n, f))[:80])
         res.count("detach implementations")
         if not n_new:
             res.notes.append("%s: answers with the argument or refuses only" % f.qn)
@@ -829,3 +862,78 @@ def run_detachrelease(prog, ctx=None):
 def _addr_of(e):
     s = strip(e, all_casts=True)
     return s.get("k") == "un" and s.get("op") == "&"
+
+
+def run_detachdead(prog, ctx=None):
+    """DETACHDEAD: `x = b->_vptr->detach(b, n)` consumes the reference the caller held on b: when it answers with a buffer, b may
+    have been freed or left to its other holders.  Where the answer is not assigned to the same local (`b = b->detach(b, ..)`
+    is the idiom of the tree), the old local is not used again on the paths where the call delivered something: lengths stored
+    and bytes copied through it go to the old buffer, the new one keeps its old content and length."""
+    res = Result("DETACHDEAD")
+    files = set(ctx.get("files", [])) if ctx else None
+    from .rules_path import funcs_of
+    for f in funcs_of(prog, files):
+        for bid, blk in sorted(f.blocks.items()):
+            for i, e in enumerate(blk.el):
+                if e.get("k") != "call" or e.get("callee") is None or not e.get("args"):
+                    continue
+                ce = strip(e["callee"], all_casts=True)
+                if not (ce.get("k") == "mem" and ce.get("f") == "detach"):
+                    continue
+                a0 = strip(e["args"][0], all_casts=True)
+                if not (a0.get("k") == "ref" and a0["d"].get("dk") in ("local", "param") and "id" in a0["d"]):
+                    continue
+                vid, vname = a0["d"]["id"], a0["d"].get("n")
+                # where does the answer go?
+                target = None
+                for e2 in blk.el[i + 1:] + ([blk.term["cond"]] if blk.term and isinstance(blk.term.get("cond"), dict) else []):
+                    for n in walk(e2):
+                        if n.get("k") == "bin" and n.get("op") == "=":
+                            r = strip(n["b"], all_casts=True)
+                            if r.get("k") == "call" and r.get("sid") == e.get("sid"):
+                                target = strip(n["a"], lvalue_to_rvalue=False)
+                        if n.get("k") == "decl":
+                            for v in n["vars"]:
+                                if v.get("init") is not None:
+                                    r = strip(v["init"], all_casts=True)
+                                    if r.get("k") == "call" and r.get("sid") == e.get("sid"):
+                                        target = {"k": "ref", "d": {"id": v["id"], "n": v.get("n")}}
+                if target is None:
+                    continue
+                if target.get("k") == "ref" and target["d"].get("id") == vid:
+                    res.ob("%s:%s = detach(%s) line %s" % (f.qn, vname, vname, e.get("l")), True, f, e.get("l") or f.line)
+                    continue
+                # success successors: the false edge of `!(x = detach())`, the true edge of `(x = detach())`; otherwise all
+                starts = [s for s in blk.succ if s is not None]
+                if blk.term and isinstance(blk.term.get("cond"), dict) and len(blk.succ) == 2:
+                    c = strip(blk.term["cond"], all_casts=True)
+                    if blk.term.get("cls") != "BinaryOperator":
+                        while c.get("k") == "bin" and c.get("op") in ("&&", "||"):
+                            c = strip(c["b"], all_casts=True)
+                    neg = False
+                    while c.get("k") == "un" and c.get("op") == "!":
+                        neg = not neg
+                        c = strip(c["e"], all_casts=True)
+                    if c.get("k") == "bin" and c.get("op") == "=" and strip(c["b"], all_casts=True).get("sid") == e.get("sid"):
+                        starts = [blk.succ[1] if neg else blk.succ[0]]
+                        starts = [s for s in starts if s is not None]
+                # blocks where the local is assigned again end the search
+                kills = set()
+                for b2, i2, n in f.walk_all():
+                    if n.get("k") == "bin" and n.get("op") == "=":
+                        l = strip(n["a"], lvalue_to_rvalue=False)
+                        if l.get("k") == "ref" and l["d"].get("id") == vid:
+                            kills.add(b2.id)
+                reach = set()
+                for s0 in starts:
+                    reach |= f.reachable_from(s0, avoid=kills)
+                bad = None
+                for b2 in sorted(reach):
+                    for e2 in f.blocks[b2].el:
+                        for n in walk_own(e2):
+                            if n.get("k") == "ref" and n["d"].get("id") == vid and bad is None:
+                                bad = n
+                res.ob("%s:%s after detach line %s" % (f.qn, vname, e.get("l")), bad is None, f, (bad.get("l") if bad else e.get("l")) or f.line,
+                       "" if bad is None else "%s is used (line %s) after `%s` delivered its answer into `%s`: the call consumed the reference on the old buffer, what is stored or copied through %s does not reach the buffer the handle holds now" % (
+                           vname, bad.get("l"), norm(show(e, f))[:60], norm(show(target, f)), vname))
+    return res
